@@ -524,30 +524,33 @@ func (e *env) metrics(ch string) bool {
 		do(c.ProxyAddr, fmt.Sprintf("GET http://origin.test/m%d HTTP/1.1\r\nHost: origin.test\r\nX-Vid: mx-%s-%d\r\n\r\n", i, ch, i), "GET")
 	}
 	do(c.ProxyAddr, "GET http://denied-nowhere.invalid:1/ HTTP/1.1\r\nHost: denied-nowhere.invalid:1\r\n\r\n", "GET")
-	time.Sleep(100 * time.Millisecond)
-	m, got := do(c.APIAddr, "GET /metrics HTTP/1.1\r\nHost: api\r\nConnection: close\r\n\r\n", "GET")
-	if !got || m.Status != 200 {
-		e.viol("metrics:endpoint", fmt.Sprintf("[%s] /metrics on the API address answered %v", ch, m), nil)
-		return false
-	}
-	var ok200, inflight float64 = 0, -1
-	for _, line := range strings.Split(string(m.Body), "\n") {
-		if strings.HasPrefix(line, "forwarder_http_requests_total{") && strings.Contains(line, `code="200"`) && strings.Contains(line, `method="GET"`) {
-			fmt.Sscanf(line[strings.LastIndex(line, " ")+1:], "%g", &ok200)
+	// a request is counted when its handling ends: poll for up to 3 s
+	var m *lib.Msg
+	var ok200, inflight, dialed float64
+	for t := time.Now(); ; time.Sleep(50 * time.Millisecond) {
+		var got bool
+		m, got = do(c.APIAddr, "GET /metrics HTTP/1.1\r\nHost: api\r\nConnection: close\r\n\r\n", "GET")
+		if !got || m.Status != 200 {
+			e.viol("metrics:endpoint", fmt.Sprintf("[%s] /metrics on the API address answered %v", ch, m), nil)
+			return false
 		}
-		if strings.HasPrefix(line, "forwarder_http_requests_in_flight{") && strings.Contains(line, `method="GET"`) {
-			fmt.Sscanf(line[strings.LastIndex(line, " ")+1:], "%g", &inflight)
-		}
-	}
-	var dialed float64 = -1
-	for _, line := range strings.Split(string(m.Body), "\n") {
-		if strings.HasPrefix(line, "forwarder_dialer_cx_total{") {
-			var v float64
-			fmt.Sscanf(line[strings.LastIndex(line, " ")+1:], "%g", &v)
-			if dialed < 0 {
-				dialed = 0
+		ok200, inflight, dialed = 0, -1, -1
+		for _, line := range strings.Split(string(m.Body), "\n") {
+			val := func() (v float64) { fmt.Sscanf(line[strings.LastIndex(line, " ")+1:], "%g", &v); return }
+			switch {
+			case strings.HasPrefix(line, "forwarder_http_requests_total{") && strings.Contains(line, `code="200"`) && strings.Contains(line, `method="GET"`):
+				ok200 = val()
+			case strings.HasPrefix(line, "forwarder_http_requests_in_flight{") && strings.Contains(line, `method="GET"`):
+				inflight = val()
+			case strings.HasPrefix(line, "forwarder_dialer_cx_total{"):
+				if dialed < 0 {
+					dialed = 0
+				}
+				dialed += val()
 			}
-			dialed += v
+		}
+		if (ok200 == 5 && inflight == 0 && dialed >= 1) || time.Since(t) > 3*time.Second {
+			break
 		}
 	}
 	if dialed < 1 {
